@@ -68,7 +68,7 @@ def _check(D, recs):
     return None
 
 
-def c19_value(ftype, src):
+def c19_value(ftype, src, may_refuse=False):
     from flow.record import RecordDescriptor
 
     D = RecordDescriptor("c19/t", [(ftype, "x"), ("varint", "n")])
@@ -79,6 +79,8 @@ def c19_value(ftype, src):
         return {"violates": False, "note": f"rejected at construction {type(e).__name__}"}
     try:
         bad = _check(D, [r, r])
+    except UnicodeEncodeError as e:
+        bad = None if may_refuse else f"writing / reading back raised {type(e).__name__}: {e}"  # (text that has no UTF-8 encoding may be refused)
     except Exception as e:
         bad = f"writing / reading back raised {type(e).__name__}: {e}"
     return {"violates": bool(bad), "detail": bad}
